@@ -7,7 +7,7 @@ import random
 import common  # noqa: F401
 import sympy as sp
 import uneval_ir as U
-from ampform.sympy import UnevaluatedExpression, create_expression, implement_doit_method
+from ampform.sympy import UnevaluatedExpression, argument, create_expression, implement_doit_method, unevaluated
 
 SYMS = ["Symbol('x')", "Symbol('y')", "Symbol('s')", "Symbol('m1')", "Symbol('m2')", "Symbol('L')",
         "Symbol('m0', positive=True)", "Symbol('w', real=True)", "Symbol('d', nonnegative=True)"]
@@ -307,6 +307,69 @@ class LegacyExpr(UnevaluatedExpression):
         return self._name or "legacy"
 
 
+# ---------------------------------------------------------------- user-defined @unevaluated classes
+# ("any class added later"): several DEFAULTED SymPy fields, a non-SymPy field in the middle of the list
+@unevaluated
+class ShiftedPower(sp.Expr):
+    x: sp.Basic
+    shift: sp.Basic = 0
+    power: sp.Basic = 3
+
+    def evaluate(self):
+        return (self.x - self.shift) ** self.power
+
+
+@unevaluated
+class ScaledWidth(sp.Expr):
+    s: sp.Basic
+    m: sp.Basic
+    label: str = argument(default=None, sympify=False)
+    scale: sp.Basic = 1
+    offset: sp.Basic = 0
+
+    def evaluate(self):
+        return self.scale * sp.sqrt(self.s - self.m ** 2) + self.offset
+
+
+USER_CLASSES = {"gen_uneval.ShiftedPower": ShiftedPower, "gen_uneval.ScaledWidth": ScaledWidth}
+
+
+def construct(c, values, convention, seed):
+    """Build c from the declaration-ordered field values through one calling convention.
+    values: list aligned with dataclasses.fields(c); entries equal to the field default may be omitted."""
+    r = random.Random(seed)
+    fs = dataclasses.fields(c)
+    names = [f.name for f in fs]
+    if convention == "positional":
+        return c(*values)
+    if convention == "kw_declared":
+        return c(**dict(zip(names, values)))
+    if convention == "kw_shuffled":
+        items = list(zip(names, values))
+        r.shuffle(items)
+        if [k for k, _ in items] == names and len(items) > 1:
+            items.reverse()
+        return c(**dict(items))
+    if convention == "mixed":
+        k = r.randrange(1, len(fs)) if len(fs) > 1 else 1
+        items = list(zip(names[k:], values[k:]))
+        r.shuffle(items)
+        return c(*values[:k], **dict(items))
+    if convention == "skip_defaults":
+        # leave out defaulted fields whose value is the default, give the later ones by keyword
+        req = [i for i, f in enumerate(fs) if f.default is dataclasses.MISSING]
+        k = max(req) + 1 if req else 0
+        items = [(n, v) for n, v, f in zip(names[k:], values[k:], fs[k:])
+                 if not (f.default is v or (isinstance(v, sp.Basic) and f.default is not None and not isinstance(f.default, type)
+                                            and not callable(f.default) and sp.sympify(f.default) == v))]
+        r.shuffle(items)
+        return c(*values[:k], **dict(items))
+    raise ValueError(convention)
+
+
+CONVENTIONS = ["positional", "kw_declared", "kw_shuffled", "mixed", "skip_defaults"]
+
+
 def default_instances():
     """Every decorated class on default-ish arguments (plain symbols), plus helper classes."""
     out = []
@@ -329,6 +392,7 @@ def default_instances():
             ArrayMultiplication(p, p), MatrixMultiplication(p, p), ArraySlice(p, (slice(None), 0)),
             ArrayAxisSum(p), ArrayAxisSum(p ** 2, axis=1), PoolSum(x ** i, (i, (sp.Symbol("a"), 2))),
             LegacyExpr(x, sp.Symbol("y"), name="N_x"), LegacyExpr(x, 2),
+            ShiftedPower(x, power=2), ScaledWidth(x, 2, offset=sp.Symbol("y"), label="w"),
             sp.sqrt(LegacyExpr(x, sp.Symbol("y"), name="inner")) + 1]
     return out
 
